@@ -322,6 +322,9 @@ Section Tests.
   Hypothesis Hurank : forall o cm url sm url', octx o cm -> In url (import_urls cm) ->
     fs_model fs (key_of o url) = Some sm -> In url' (import_urls sm) -> urank url' < urank url.
 
+  (* 85ba0d4: the guard hasUnitsCycle stays silent (trivially so for the code before that commit) *)
+  Hypothesis Hsilent : forall o cm u, octx o cm -> In u (m_units cm) -> guarded fx st m0 o cm u = false.
+
   (* history of performTestWithHistory at an entity of the model [cm] owned by [o] *)
   Definition tinv (o : owner) (cm : model) (hist : list epoch) : Prop :=
     match o with
@@ -441,10 +444,11 @@ Section Tests.
   Definition good_uref (o : owner) (cm : model) (x : uref) : Prop :=
     match x with InModel mu => In mu (m_units cm) /\ TU st o cm mu | Standalone _ => True end.
 
-  Lemma referenced_units_leaf : forall fuel cm mu, 1 <= fuel -> (is_local mu -> only_std mu) ->
-    referenced_units fx fuel cm mu = Ok [].
+  Lemma referenced_units_leaf : forall cyc fuel cm mu, 1 <= fuel -> (is_local mu -> only_std mu) ->
+    referenced_units fx cyc fuel cm mu = Ok [].
   Proof.
-    intros fuel cm mu Hf Ho. destruct fuel as [|f]; [lia|]. cbn [referenced_units].
+    intros cyc fuel cm mu Hf Ho. destruct fuel as [|f]; [lia|]. cbn [referenced_units].
+    destruct (cyc mu); [reflexivity|].
     destruct mu as [n refs|]; [|reflexivity]. specialize (Ho I). unfold only_std in Ho. cbn [refs_of] in Ho.
     match goal with |- ?F refs = _ => assert (L : forall l, (forall r, In r l -> is_std r = true) -> F l = Ok []) end.
     { induction l as [|r rest IHl]; intros H; [reflexivity|]. rewrite (H r (or_introl eq_refl)). apply IHl.
@@ -453,10 +457,10 @@ Section Tests.
   Qed.
 
   (* unitsUsed hands out the same list for every fuel >= 1, and every units in it is resolved *)
-  Lemma units_used_ok : forall o cm c, UsedOK st o cm c ->
-    exists l, Forall (good_uref o cm) l /\ forall fuel, 1 <= fuel -> units_used fx fuel cm c = Ok l.
+  Lemma units_used_ok : forall cyc o cm c, UsedOK st o cm c ->
+    exists l, Forall (good_uref o cm) l /\ forall fuel, 1 <= fuel -> units_used fx cyc fuel cm c = Ok l.
   Proof.
-    intros o cm c. induction c as [n i used kids IHk] using comp_ind'. intros HU.
+    intros cyc o cm c. induction c as [n i used kids IHk] using comp_ind'. intros HU.
     assert (Hv : exists l1, Forall (good_uref o cm) l1 /\ forall fuel, 1 <= fuel ->
               ((fix vars (l : list string) : res (list uref) :=
                   match l with
@@ -464,7 +468,7 @@ Section Tests.
                   | n0 :: r =>
                     if is_std n0 then vars r
                     else match (match find_units (m_units cm) n0 with
-                                | Some mu => match referenced_units fx fuel cm mu with
+                                | Some mu => match referenced_units fx cyc fuel cm mu with
                                              | Ok l0 => Ok (l0 ++ [InModel mu])
                                              | other => other
                                              end
@@ -486,7 +490,7 @@ Section Tests.
       destruct (find_units (m_units cm) un) as [mu|] eqn:Emu.
       - destruct (HU' un mu (or_introl eq_refl) Es Emu) as (Hleaf & Hin & Ht).
         exists ([InModel mu] ++ l2). split; [constructor; [split; assumption|exact G2]|].
-        intros fuel Hf. rewrite (referenced_units_leaf fuel cm mu Hf Hleaf). rewrite (E2 fuel Hf). reflexivity.
+        intros fuel Hf. rewrite (referenced_units_leaf cyc fuel cm mu Hf Hleaf). rewrite (E2 fuel Hf). reflexivity.
       - exists ([Standalone un] ++ l2). split; [constructor; [exact I|exact G2]|].
         intros fuel Hf. rewrite (E2 fuel Hf). reflexivity. }
     destruct Hv as (l1 & G1 & E1).
@@ -494,7 +498,7 @@ Section Tests.
               ((fix go (l : list comp) : res (list uref) :=
                   match l with
                   | [] => Ok []
-                  | k :: r => match units_used fx fuel cm k with
+                  | k :: r => match units_used fx cyc fuel cm k with
                               | Ok a => match go r with Ok b => Ok (a ++ b) | other => other end
                               | other => other
                               end
@@ -517,6 +521,7 @@ Section Tests.
   Proof.
     intros o cm [mu|n] Hg Hoc; [|exists 0; reflexivity]. destruct Hg as (Hin & Ht).
     destruct (units_test_ok _ _ _ Ht) as (N & HN). exists N. intros fuel Hf. cbn [uref_test].
+    rewrite (Hsilent o cm mu Hoc Hin).
     rewrite (HN fuel Hf [] (tinv_nil o cm) Hoc Hin). reflexivity.
   Qed.
 
@@ -557,7 +562,7 @@ Section Tests.
     - destruct (list_bound (fun k fuel => forall hist, tinv o cm hist ->
                                comp_test fx fuel RESOLVED st m0 o cm hist k = Ok true) kids) as (Nk & HNk).
       { intros k Hkin. apply IH; auto. eapply kids_child_comps; eauto. }
-      destruct (units_used_ok o cm _ HU) as (l & Gl & El).
+      destruct (units_used_ok (guarded fx st m0 o cm) o cm _ HU) as (l & Gl & El).
       destruct (list_bound (fun x fuel => uref_test fx fuel RESOLVED st m0 o cm x = Ok true) l) as (Nl & HNl).
       { intros x Hx. rewrite Forall_forall in Gl. apply uref_test_ok; auto. }
       exists (S (Nk + Nl)). intros fuel Hfuel hist Hti. destruct fuel as [|f]; [lia|].
@@ -613,6 +618,10 @@ Proof.
   apply in_flat_map. exists c. split; [exact Hc|apply imported_comps_of_conv; assumption].
 Qed.
 
+(* 85ba0d4: hasUnitsCycle answers false for every units of the origin model and of the files *)
+Definition GuardSilent (fs : fsys) (fx : fixes) (st : state) (m0 : model) : Prop :=
+  forall o cm u, octx fs m0 o cm -> In u (m_units cm) -> guarded fx st m0 o cm u = false.
+
 Section PostTheorem.
   Variable fs : fsys.
   Variable strict : bool.
@@ -634,9 +643,10 @@ Section PostTheorem.
 
   Lemma resolve_true_post : forall fuel st st',
     cons fs st -> resolve_imports fuel strict fs st m0 = Ok (true, st') ->
+    GuardSilent fs fx st' m0 ->    (* 85ba0d4: hasUnitsCycle finds no cycle (trivial for the code before that commit) *)
     exists N, forall fuel', N <= fuel' -> has_unresolved_imports fx fuel' st' m0 = Ok false.
   Proof.
-    intros fuel st st' Hc E. unfold resolve_imports in E.
+    intros fuel st st' Hc E Hsilent. unfold resolve_imports in E.
     destruct (resolve_loop (fun st u => fetch_units fuel strict fs m0 st None [] u) (fun u => ItUnits None (uname u))
                            (imported_units m0) true (clear_origin_links (clear_issues st)))
       as [[b1 st1]| |] eqn:E1; try discriminate.
@@ -692,12 +702,14 @@ Section PostTheorem.
           assert (Hall : In c (all_comps m0)) by (unfold all_comps; apply in_flat_map; exists c; split; [exact Hcin|apply subcomps_self]).
           assert (Hsub : incl (subcomps c) (all_comps m0)).
           { intros x Hx. unfold all_comps. apply in_flat_map. exists c. split; assumption. }
-          destruct (comp_test_ok fs m0 st' fx rank urank Hpop Hc' Hrank Hnt Hntf Hurl0 Hurl Hurank _ _ _ (TCall c Hsub) eq_refl Hall)
+          destruct (comp_test_ok fs m0 st' fx rank urank Hpop Hc' Hrank Hnt Hntf Hurl0 Hurl Hurank Hsilent _ _ _ (TCall c Hsub) eq_refl Hall)
             as (N & HN). exists N. intros fuel' Hf. apply HN; [exact Hf|reflexivity]. }
         exists (Nu + Ncm). intros fuel' Hf. unfold has_unresolved_imports, model_test.
-        rewrite (all_ok_const (unit_step (fun u => res_map fst (units_test fx fuel' RESOLVED st' m0 None m0 [] u)))
+        rewrite (all_ok_const (unit_step (fun u => if guarded fx st' m0 None m0 u then Ok false
+                                                   else res_map fst (units_test fx fuel' RESOLVED st' m0 None m0 [] u)))
                               (m_units m0) tt).
-        2:{ intros u Hu. unfold unit_step. rewrite (HNu fuel' ltac:(lia) u Hu). reflexivity. }
+        2:{ intros u Hu. unfold unit_step. rewrite (Hsilent None m0 u eq_refl Hu).
+            rewrite (HNu fuel' ltac:(lia) u Hu). reflexivity. }
         rewrite (all_ok_const (unit_step (comp_test fx fuel' RESOLVED st' m0 None m0 [])) (m_comps m0) tt).
         2:{ intros c Hcin. unfold unit_step. rewrite (HNc fuel' ltac:(lia) c Hcin). reflexivity. }
         reflexivity.
@@ -716,6 +728,7 @@ Lemma resolve_true_post_partial : forall fs strict m0 fx (rank urank : string ->
      fs_model fs (key_of o url) = Some sm -> In url' (import_urls sm) -> urank url' < urank url) ->
   OriginShallow m0 ->
   forall fuel st st', cons fs st -> resolve_imports fuel strict fs st m0 = Ok (true, st') ->
+  GuardSilent fs fx st' m0 ->
   exists N, forall fuel', N <= fuel' -> has_unresolved_imports fx fuel' st' m0 = Ok false.
 Proof. intros. eapply resolve_true_post; eauto. Qed.
 
@@ -735,10 +748,11 @@ Lemma post_nonvacuous :
     (forall o cm url sm url', octx ex_fs ex_m0 o cm -> In url (import_urls cm) ->
        fs_model ex_fs (key_of o url) = Some sm -> In url' (import_urls sm) -> urank url' < urank url) /\
     OriginShallow ex_m0 /\ cons ex_fs empty_state /\
-    resolve_imports (fuel_bound ex_fs empty_state) true ex_fs empty_state ex_m0 = Ok (true, st').
+    resolve_imports (fuel_bound ex_fs empty_state) true ex_fs empty_state ex_m0 = Ok (true, st') /\
+    fx_cycle_guard fx = true /\ GuardSilent ex_fs fx st' ex_m0.
 Proof.
   destruct nonvacuous as (_ & Hsh & _ & Hnt & _ & _).
-  exists {| fx_pop := true; fx_nullref := false; fx_placeholder_children := false |}, (fun _ => 0), (fun _ => 0), ex_st.
+  exists head_fixes, (fun _ => 0), (fun _ => 0), ex_st.
   split; [reflexivity|]. split; [exact Hsh|].
   split; [intros k sm url E Hin; rewrite (ex_fs_model _ _ E) in Hin; destruct Hin|].
   split; [exact Hnt|].
@@ -750,5 +764,10 @@ Proof.
   { split.
     - intros u r cu [<-|[]] [].
     - intros c un su [<-|[]] []. }
-  split; [apply cons_empty_lib; reflexivity|]. vm_compute. reflexivity.
+  split; [apply cons_empty_lib; reflexivity|]. split; [vm_compute; reflexivity|]. split; [reflexivity|].
+  intros o cm u Hoc Hin. destruct o as [k|]; cbn [octx] in Hoc.
+  - pose proof (ex_fs_key _ _ Hoc) as Ek. subst k. vm_compute in Hoc. inversion Hoc; subst cm. cbn in Hin.
+    repeat (destruct Hin as [<-|Hin]; [vm_compute; reflexivity|]). destruct Hin.
+  - subst cm. cbn in Hin.
+    repeat (destruct Hin as [<-|Hin]; [vm_compute; reflexivity|]). destruct Hin.
 Qed.
